@@ -407,10 +407,12 @@ fn func_arg_to_native_expr(node: &FunctionArg) -> Result<Box<Expr>, QueryError> 
 }
 
 fn strip_quotes(ident: &str) -> String {
-    if ident.starts_with('`') || ident.starts_with('"') {
-        ident[1..ident.len() - 1].to_string()
-    } else {
-        ident.to_string()
+    let mut chars = ident.chars();
+    match (chars.next(), chars.next_back()) {
+        (Some(open), Some(close)) if (open == '`' || open == '"') && close == open => {
+            chars.as_str().to_string()
+        }
+        _ => ident.to_string(),
     }
 }
 
